@@ -4,7 +4,7 @@ import random
 
 from .. import core, lifecheck as L
 
-ALL = ["p1", "p2", "p3", "p4", "p5", "p6", "p7", "p8", "p9", "p10", "p11", "p12", "p13", "p14", "p15", "p16", "bad", "bad2", "bad3", "bad4"]
+ALL = ["p1", "p2", "p3", "p4", "p5", "p6", "p7", "p8", "p9", "p10", "p11", "p12", "p13", "p14", "p15", "p16", "p17", "bad", "bad2", "bad3", "bad4"]
 PRETOOLED = ["p1", "p2", "q2", "p4", "p5", "p3", "p8"]      # histories on functions tooled in place beforehand; q2 is a plain overlay
 
 
@@ -48,10 +48,10 @@ def run(out, tier, seed):
     cases = []
     sigs_all = {}
     if tier == "quick":
-        plans = [(5, ["p1", "p3", "p4", "bad"]), (4, ["p6", "p1", "p4"]), (4, ["p7", "p8", "p9"]), (4, ["p10", "p1", "p4"]), (4, ["bad3", "p1", "p4"]), (4, ["p11", "p1", "p8"]), (5, ["p12", "p13"]), (4, ["p14", "p15", "p1"]), (4, ["p2", "p4", "p1"], True), (4, ["p16", "p4", "bad4"])]
+        plans = [(5, ["p1", "p3", "p4", "bad"]), (4, ["p6", "p1", "p4"]), (4, ["p7", "p8", "p9"]), (4, ["p10", "p1", "p4"]), (4, ["bad3", "p1", "p4"]), (4, ["p11", "p1", "p8"]), (5, ["p12", "p13"]), (4, ["p14", "p15", "p1"]), (4, ["p2", "p4", "p1"], True), (4, ["p16", "p4", "bad4"]), (4, ["p17", "p4", "p1"])]
     else:
         plans = [(6, ["p1", "p3", "p4", "bad"]), (5, ["p2", "p5", "p4", "bad2"]), (5, ["p1", "p2", "p3", "p4", "p5"]),
-                 (5, ["p6", "p1", "p4", "bad2"]), (5, ["p7", "p8", "p9", "p1"]), (5, ["p10", "p1", "p2", "bad"]), (5, ["bad3", "p1", "p3", "p4"]), (5, ["p11", "p1", "p7", "p8"]), (6, ["p12", "p13"]), (5, ["p12", "p13", "p1"]), (5, ["p14", "p15", "p1", "p2"]), (5, ["p2", "p4", "p1", "p14"], True), (5, ["p16", "p4", "bad4", "p1"])]
+                 (5, ["p6", "p1", "p4", "bad2"]), (5, ["p7", "p8", "p9", "p1"]), (5, ["p10", "p1", "p2", "bad"]), (5, ["bad3", "p1", "p3", "p4"]), (5, ["p11", "p1", "p7", "p8"]), (6, ["p12", "p13"]), (5, ["p12", "p13", "p1"]), (5, ["p14", "p15", "p1", "p2"]), (5, ["p2", "p4", "p1", "p14"], True), (5, ["p16", "p4", "bad4", "p1"]), (5, ["p17", "p4", "p6", "p1"])]
     for plan in plans:
         maxops, uni, incall = plan[0], plan[1], len(plan) > 2
         hists, sigs = L.explore(out, maxops, uni, f"LifeMechMC[{maxops},{'+'.join(uni)}{',in-call' if incall else ''}]", incall=incall)
@@ -82,6 +82,12 @@ def run(out, tier, seed):
                     o = ["calld", rng.randint(1, 30), o[1]]
             out_ops.append(o)
         cases.append({"id": len(cases), "src": "incall", "ops": out_ops})
+    # a probe entered and left from inside a call that other probes (also call-path and total ones) are observing
+    for _ in range(60 if tier == "quick" else 1200):
+        ops = random_history(rng, rng.randint(4, 16), ["p1", "p3", "p6", "p16", "p9", "p2"], lifo=True)
+        for q in rng.sample(["p4", "p5"], rng.randint(1, 2)):
+            ops.insert(rng.randrange(len(ops) + 1), ["calle", rng.choice([3, 7, 20]), q])
+        cases.append({"id": len(cases), "src": "enter-in-call", "ops": ops})
     traces = L.run_histories(cases, work)
     # the same kind of histories on functions that were tooled in place beforehand, with a plain overlay (no tooling of its
     # own) among the probes: selective tooling by probing() must not starve it (with-block order only)
